@@ -457,4 +457,5 @@ func runC01(c *Ctx) {
 		}
 		c01Run(c, cs)
 	})
+	runSockLegC01(c)
 }
